@@ -193,3 +193,17 @@ META = {
         "technique": "static analysis: dispatch walk + encoding-state provenance + who-may-create",
     },
 }
+
+
+def full_explanation(pid: str) -> str:
+    """The hand-written explanation, completed with the description of every registered rule it does not mention."""
+    import re
+    from . import core
+    base = META.get(pid, {}).get("explanation", "")
+    extra = []
+    for r in core.RULES.get(pid, []):
+        if not re.search(r"(?<![A-Za-z0-9])%s(?![0-9])" % re.escape(r.rid), base):
+            extra.append("(%s) %s" % (r.rid, r.desc))
+    if extra:
+        base += " Further rules: " + "; ".join(extra) + "."
+    return base
